@@ -1,6 +1,7 @@
 """A6 — builder-trace extraction: partial evaluation of straight-line `type_info` bodies over the
 builder API into a *shape term*.  Nothing is executed: the MIR terms are folded with the
 documented meaning of each builder call (whose faithfulness is C17's subject)."""
+import re
 from . import mir
 from .mir import is_call, unref, path_str
 
@@ -20,7 +21,12 @@ class ShapeEval:
     # ---- helpers
     def tystr(self, g):
         if isinstance(g, int):
-            return self.prog.ty(g)["s"]
+            st = self.prog.ty(g)["s"]
+            # inside an inlined generic helper, its own type parameters stand for the caller's arguments
+            for sub in reversed(getattr(self, "_tysubst", [])):
+                if sub:
+                    st = re.sub(r"\b(%s)\b" % "|".join(re.escape(k) for k in sub), lambda m: sub[m.group(1)], st)
+            return st
         return str(g)
 
     def type_gargs(self, info):
@@ -282,6 +288,23 @@ class ShapeEval:
             v = dict(E(args[0]))
             v["docs"] = {"via": ln, "value": self.docs_value(b, args[1])}
             return v
+        # a crate-local helper (e.g. a function shared by two impls): judged by what it returns for these arguments
+        cands = [p_ for p_ in self.prog._bodies_raw if mir.strip_generics(p_) == name]
+        if len(cands) == 1 and name.startswith("scale_info::") and len(getattr(self, "_tysubst", [])) < 3:
+            cb = self.prog.body(cands[0])
+            f = self.prog.fns.get(cands[0], {})
+            if cb is not None and cb.arg_count == len(args) and not any(bl["term"]["k"] == "switch" for bl in cb.blocks if not bl["cleanup"]):
+                gens = [g["name"] for g in f.get("generics", []) if g.get("kind") == "type"]
+                actual = [self.tystr(g) for g in self.type_gargs(info)]
+                sub = dict(zip(gens, actual[-len(gens):])) if gens and len(actual) >= len(gens) else {}
+                mapping = {("arg", i + 1, cb.names.get(i + 1)): a for i, a in enumerate(args)}
+                if not hasattr(self, "_tysubst"):
+                    self._tysubst = []
+                self._tysubst.append(sub)
+                try:
+                    return self.ev(cb, mir.subst(cb.return_term(), mapping), env)
+                finally:
+                    self._tysubst.pop()
         raise Unrecognised("call to %s is outside the builder vocabulary" % name)
 
     def ev_closure(self, b, clo, init, env):
